@@ -149,6 +149,7 @@ type SpecFunc struct {
 	File    string
 	Rec     bool // body refers to itself: emitted as declare-fun + unfolding axiom
 	Trigger bool
+	Opaque  bool // encoded as an uninterpreted function; its definition is only available where revealed
 }
 
 type Axiom struct {
@@ -167,6 +168,15 @@ type Lemma struct {
 	File  string
 	Uses  []string // axioms are always in scope; lemmas cited here are assumed
 	Induction string // variable to do induction on ("" = direct proof)
+	Yields    Expr   // optional consequence (proved from Body); what users of the lemma get
+}
+
+// Stmt is what citing / using the lemma provides.
+func (l *Lemma) Stmt() Expr {
+	if l.Yields != nil {
+		return l.Yields
+	}
+	return l.Body
 }
 
 type FuncContract struct {
@@ -194,6 +204,7 @@ type FuncContract struct {
 	Locals    map[string]string // alias -> source variable name
 	AbsFloat  bool
 	Cites     []string // lemmas (proved separately) assumed at every program point of this function
+	Reveals   []string // opaque spec functions whose definition is available in this function's proof
 }
 
 func (c *FuncContract) Key() string {
@@ -297,7 +308,7 @@ func (p *parser) ident() (string, error) {
 }
 
 var itemKeywords = map[string]bool{"strmap": true, "spec": true, "axiom": true, "lemma": true, "func": true, "external": true, "iface": true, "table": true, "schema": true}
-var clauseKeywords = map[string]bool{"requires": true, "ensures": true, "modifies": true, "loop": true, "invariant": true, "pure": true, "trusted": true, "props": true, "use": true, "bounded": true, "assumes": true, "allowpanic": true, "nobody": true, "uses": true, "keys": true, "sem": true, "local": true, "absfloat": true, "cite": true}
+var clauseKeywords = map[string]bool{"requires": true, "ensures": true, "modifies": true, "loop": true, "invariant": true, "pure": true, "trusted": true, "props": true, "use": true, "bounded": true, "assumes": true, "allowpanic": true, "nobody": true, "uses": true, "keys": true, "sem": true, "local": true, "absfloat": true, "cite": true, "reveal": true, "yields": true}
 
 func parseSpecFile(pkg, file, src string) (*SpecFile, error) {
 	lines := extractSpecLines(src)
@@ -368,6 +379,13 @@ func parseSpecFile(pkg, file, src string) (*SpecFile, error) {
 				return nil, err
 			}
 			l.Body = e
+			if p.acceptKw("yields") {
+				y, err := p.parseExpr()
+				if err != nil {
+					return nil, err
+				}
+				l.Yields = y
+			}
 			sf.Lemmas = append(sf.Lemmas, l)
 		case "func", "external", "iface":
 			c, err := p.parseContract(sf)
@@ -480,7 +498,7 @@ func (p *parser) parseSpecFunc() (*SpecFunc, error) {
 	if err := p.expectP(")"); err != nil {
 		return nil, err
 	}
-	if !p.isP("=") && !p.isKw("uninterpreted") {
+	if !p.isP("=") && !p.isKw("uninterpreted") && !p.isKw("opaque") {
 		s.Result, err = p.parseType()
 		if err != nil {
 			return nil, err
@@ -488,6 +506,9 @@ func (p *parser) parseSpecFunc() (*SpecFunc, error) {
 	}
 	if p.acceptKw("uninterpreted") {
 		return s, nil
+	}
+	if p.acceptKw("opaque") {
+		s.Opaque = true
 	}
 	if err := p.expectP("="); err != nil {
 		return nil, err
@@ -743,6 +764,12 @@ func (p *parser) parseContract(sf *SpecFile) (*FuncContract, error) {
 			c.Locals[alias] = src
 		case "absfloat":
 			c.AbsFloat = true
+		case "reveal":
+			ids, err := p.identList()
+			if err != nil {
+				return nil, err
+			}
+			c.Reveals = append(c.Reveals, ids...)
 		case "cite":
 			ids, err := p.identList()
 			if err != nil {
